@@ -37,8 +37,9 @@ case "$cmd" in
         ZV_BINS="$bins" "$S/target/zv-gv/release/zv" "$id" "$@"
         ;;
       *)
-        ( cd "$S/engines/zb" && cargo build --release --offline 2>&1 | grep -E "^error" -A 12 || true )
-        "$S/target/zb/release/zb" "$id" "$@"
+        B="${ZB_BIN:-zb}"
+        ( cd "$S/engines/zb" && cargo build --release --offline --bin "$B" 2>&1 | grep -E "^error" -A 12 || true )
+        "$S/target/zb/release/$B" "$id" "$@"
         ;;
     esac
     ;;
